@@ -338,14 +338,26 @@ def run(facts, rep, tier):
         raise Broken("C17 anchor: %s has no MIR in the crate" % fn)
     body = facts.bodies[fn]
     ncalls = len(list(body.calls()))
-    rep.oblige(ncalls == 0, ("pure", fn))
     if ncalls:
-        rep.add(Finding("R17.3", "%s : calls" % fn, "the address->country function calls other code (purity not evident)", body.loc()))
+        # calls are fine when everything reachable is effect-free crate code or reviewed std (decided by the E2 evaluation below)
+        from ..effects import Effects
+        effs = Effects(facts).of(fn)
+        rep.oblige(not effs, ("pure", fn))
+        if effs:
+            rep.add(Finding("R17.3", "%s : calls" % fn, "the address->country function has side effects %s" % sorted(map(str, effs))[:3], body.loc()))
 
     try:
         leaves, dead, stats = eval_partition(body)
     except Broken as e:
-        # the lookup is no longer a pure decision tree over the address (calls, memo, thread-local state ...):
+        # not a plain decision tree (helper functions, table lookups): evaluate it abstractly (E2) interval by interval
+        alt = _eval_by_e2(facts, fn)
+        if alt is not None:
+            leaves2, notes = alt
+            _compare(rep, fn, body, leaves2, "abstract interpretation over %d address intervals" % len(leaves2))
+            rep.instances("R17.2", 1, floor=0)
+            rep.extra["evaluator"] = "E2 interval evaluation (the function is not a plain decision tree: %s)" % e
+            return
+        # the lookup is no longer a pure function of the address that can be followed (memo, thread-local state ...):
         # "determined solely by its 24-bit address" cannot be established
         rep.oblige(False, ("pure-tree", fn))
         rep.add(Finding("R17.1", "%s : country lookup is not a pure function of the address" % fn,
@@ -354,45 +366,7 @@ def run(facts, rep, tier):
         rep.instances("R17.1", 1, floor=0)
         rep.instances("R17.2", 1, floor=0)
         return
-    leaves.sort()
-    # coverage sanity: leaves tile [0,2^24)
-    cur = 0
-    for lo, hi, _ in leaves:
-        if lo != cur:
-            raise Broken("C17 evaluator: partition is not a tiling at %06X" % cur)
-        cur = hi + 1
-    if cur != TOP + 1:
-        raise Broken("C17 evaluator: partition does not reach 2^24")
-    exp = expected_partition()
-    # sweep compare
-    i = j = 0
-    mism = {}
-    segs = 0
-    while i < len(leaves) and j < len(exp):
-        lo = max(leaves[i][0], exp[j][0])
-        hi = min(leaves[i][1], exp[j][1])
-        if lo <= hi:
-            segs += 1
-            got = code_of(leaves[i][2])
-            want = exp[j][2]
-            ok = got == want
-            rep.oblige(ok, ("seg", lo, hi))
-            if not ok:
-                key = (want, got, exp[j][0], exp[j][1])
-                if key not in mism:
-                    mism[key] = (lo, hi)
-                else:
-                    mism[key] = (mism[key][0], hi)
-        if leaves[i][1] < exp[j][1]:
-            i += 1
-        else:
-            j += 1
-    for (want, got, blo, bhi), (lo, hi) in sorted(mism.items()):
-        rep.add(Finding(
-            "R17.1", "%s : block %06X-%06X expected %s got %s" % (fn, blo, bhi, want, got),
-            "addresses %06X..%06X are shown as %r but the Annex 10 allocation says %r" % (lo, hi, got, want),
-            body.loc(), {"first_bad": "%06X" % lo, "last_bad": "%06X" % hi}))
-    rep.instances("R17.1", segs, floor=300, what="overlap segments of computed partition x reference partition")
+    _compare(rep, fn, body, leaves, "decision-tree evaluation")
     nblocks = len([l for l in leaves if code_of(l[2]) != "??"])
     rep.extra["exhaustive"] = True
     rep.extra["addresses_covered"] = TOP + 1
@@ -465,3 +439,89 @@ def _must_set_country(facts, rep, reg_stores):
                             "%s builds a row and stores Plane.icao, but Plane.reg is not stored on every path to its return: the country "
                             "shown then depends on more than the address (first frame's format, an option, row state)" % b.name, b.loc()))
     rep.instances("R17.4", n, floor=1, what="row constructors storing an address")
+
+
+def _compare(rep, fn, body, leaves, how):
+    leaves.sort()
+    # coverage sanity: leaves tile [0,2^24)
+    cur = 0
+    for lo, hi, _ in leaves:
+        if lo != cur:
+            raise Broken("C17 evaluator: partition is not a tiling at %06X" % cur)
+        cur = hi + 1
+    if cur != TOP + 1:
+        raise Broken("C17 evaluator: partition does not reach 2^24")
+    exp = expected_partition()
+    # sweep compare
+    i = j = 0
+    mism = {}
+    segs = 0
+    while i < len(leaves) and j < len(exp):
+        lo = max(leaves[i][0], exp[j][0])
+        hi = min(leaves[i][1], exp[j][1])
+        if lo <= hi:
+            segs += 1
+            got = code_of(leaves[i][2])
+            want = exp[j][2]
+            ok = got == want
+            rep.oblige(ok, ("seg", lo, hi))
+            if not ok:
+                key = (want, got, exp[j][0], exp[j][1])
+                if key not in mism:
+                    mism[key] = (lo, hi)
+                else:
+                    mism[key] = (mism[key][0], hi)
+        if leaves[i][1] < exp[j][1]:
+            i += 1
+        else:
+            j += 1
+    for (want, got, blo, bhi), (lo, hi) in sorted(mism.items()):
+        rep.add(Finding(
+            "R17.1", "%s : block %06X-%06X expected %s got %s" % (fn, blo, bhi, want, got),
+            "addresses %06X..%06X are shown as %r but the Annex 10 allocation says %r" % (lo, hi, got, want),
+            body.loc(), {"first_bad": "%06X" % lo, "last_bad": "%06X" % hi}))
+    rep.instances("R17.1", segs, floor=300, what="overlap segments of computed partition x reference partition (%s)" % how)
+    return segs
+
+
+def _eval_by_e2(facts, fn):
+    """-> ([(lo, hi, ('tuple', [.., ('str', code)]))] tiling [0, 2^24), notes) or None if E2 cannot follow the function.
+    Every reference block (and gap) is evaluated as ONE interval; an interval on which the result is not a single string is
+    bisected (the implementation's own block boundaries need not be the reference's)."""
+    from ..absint import k3 as K3
+    from ..absint.domain import IntV, StrV, TupleV, fresh_sid
+    leaves = []
+    budget = [6000]
+
+    def ev(lo, hi):
+        budget[0] -= 1
+        if budget[0] < 0:
+            raise Broken("C17: E2 interval evaluation does not converge")
+        I, v, st = K3.run_fn(facts, fn, lambda I, st: [IntV("u32", None, lo, hi, None, frozenset([("addr",)]), fresh_sid())], "C17 %06X-%06X" % (lo, hi))
+        if [w for w in I.warnings if w[0] == "unmodelled"]:
+            return "unmodelled"
+        code = None
+        if isinstance(v, TupleV) and len(v.items) == 2 and isinstance(v.items[1], StrV) and v.items[1].skind == "lit":
+            code = v.items[1].text
+        return code
+
+    def go(lo, hi):
+        c = ev(lo, hi)
+        if c == "unmodelled":
+            raise Broken("unreviewed call")
+        if c is not None:
+            leaves.append((lo, hi, ("tuple", [None, ("str", c)])))
+            return
+        if lo == hi:
+            raise Broken("C17: result at %06X is not a literal" % lo)
+        mid = (lo + hi) // 2
+        go(lo, mid)
+        go(mid + 1, hi)
+    try:
+        for lo, hi, _ in expected_partition():
+            go(lo, hi)
+    except Broken:
+        return None
+    except RecursionError:
+        return None
+    return leaves, []
